@@ -488,8 +488,8 @@ class ExprFormatted(Expr):
 
     def iterate(self, *, flat: bool = True) -> Iterator[str | Expr]:
         yield "{"
-        if isinstance(self.value, (ExprDict, ExprDictComp, ExprSet, ExprSetComp)):
-            # `{{` would be an escaped brace.
+        if str(self.value).startswith("{"):
+            # `{{` would be an escaped brace: the value is, or starts with, a dict or set display.
             yield " "
         yield from _yield(self.value, flat=flat, outer=_Precedence.OR)
         if self.conversion:
